@@ -9,6 +9,7 @@ open Lean SyneTune SyneTune.Wire
 def errStr : Err → String
   | .assertion w => s!"assertion:{w}"
   | .keyError w => s!"key-error:{w}"
+  | .indexError w => s!"index-error:{w}"
 
 def jEntry (e : Entry) : Json := jArr [jNat e.tid, jRat e.val, Json.bool e.promoted]
 
@@ -25,8 +26,15 @@ def jCall : SCall → Json
   | .cleanup t => jArr [Json.str "cleanup", jNat t]
   | .evalFailed t => jArr [Json.str "failed", jNat t]
 
+def jThresholds (g : Manager) : Json :=
+  jArr (g.systems.map fun s => jArr (s.thresholds.map fun (r, v) => jArr [jNat r, jRat v]))
+
+def jPasha (g : Manager) : Json :=
+  jArr (g.systems.map fun s => jArr [jNat s.curIdx, jNat s.curMaxT])
+
 def jState (s : Sched) : List (String × Json) :=
-  [("rungs", jRungs s.mgr), ("running", jRunning s.mgr),
+  [("rungs", jRungs s.mgr), ("running", jRunning s.mgr), ("thresholds", jThresholds s.mgr),
+   ("pasha", jPasha s.mgr), ("cost_offset", jArr (s.costOffset.map fun (t, c) => jArr [jNat t, jRat c])),
    ("task_info", jArr (s.mgr.taskInfo.map fun (t, b) => jArr [jNat t, jNat b])),
    ("active", jArr (s.active.map fun (t, i) => jArr [jNat t, Json.str i.decision.toString, jNat i.bracket]))]
 
@@ -34,6 +42,10 @@ def hbInit (j : Json) : Except String (Sched × Json) := do
   let ty ← getStr j "type"
   let type ← (if ty == "stopping" then pure HBType.stopping
               else if ty == "promotion" then pure HBType.promotion
+              else if ty == "pasha" then pure HBType.pasha
+              else if ty == "cost_promotion" then pure HBType.costPromotion
+              else if ty == "rush_stopping" then pure HBType.rushStopping
+              else if ty == "rush_promotion" then pure HBType.rushPromotion
               else throw s!"unsupported type {ty}")
   let mode ← modeOf (← getStr j "mode")
   let maxT ← getNat j "max_t"
@@ -51,8 +63,8 @@ def hbInit (j : Json) : Except String (Sched × Json) := do
   let sd := getStrD j "searcher_data" "rungs"
   let sdata ← (if sd == "rungs" then pure SearcherData.rungs else if sd == "all" then pure SearcherData.all
                else if sd == "rungs_and_last" then pure SearcherData.rungsAndLast else throw "bad searcher_data")
-  let mgr := Manager.init type mode maxT levels brackets perBracket
-  let s : Sched := { mgr := mgr, searcherData := sdata,
+  let mgr := Manager.init type mode maxT levels brackets perBracket (getNatD j "num_threshold_candidates" 0)
+  let s : Sched := { mgr := mgr, searcherData := sdata, hasCost := getBoolD j "cost" false,
                      pendingMyopic := getBoolD j "register_pending_myopic" false,
                      maxResourceAttr := getBoolD j "max_resource_attr" false }
   let info := mgr.systems.head?.map (fun s0 => s0.rungs.map fun r => jArr [jNat r.level, jNat r.data.length, jRat r.q])
@@ -77,7 +89,9 @@ def hbStep (s : Sched) (j : Json) : Except String (Sched × Json) := do
     let r ← getNat j "resource"
     let v ← getRat j "metric"
     let hint := getBoolD j "hint" true
-    match s.onResult tid r v hint with
+    let cost ← (if hasKey j "cost" then getRat j "cost" else pure 0)
+    let eps ← (if hasKey j "eps" then getRat j "eps" else pure 0)
+    match s.onResult tid r v hint cost eps with
     | .error e => throw (errStr e)
     | .ok (s', o) =>
       return (s', jOut (jObj ([("decision", Json.str o.decision.toString), ("free", Json.bool o.free),
